@@ -11,6 +11,7 @@ import Driver.RngOps
 import Driver.CollectiveOps
 import Driver.SnapshotOps
 import Driver.WorldOps
+import Driver.GlobOps
 import Driver.JsonOps
 import Driver.CommitOps
 import Driver.SchedOps
@@ -29,6 +30,7 @@ def handlers : List Handler := [
   JsonOps.handle,
   SnapshotOps.handle,
   WorldOps.handle,
+  GlobOps.handle,
   CollectiveOps.handle,
   RngOps.handle,
   FlattenOps.handle,
